@@ -230,7 +230,7 @@ def trace_half(ctx, which, path, rows):
     first = first_bad(rows, bad)
     confirmed, truncated = [], 0
     if first:
-        trs = sorted(first)[:60]
+        trs = sorted(first)
         p2, rows2 = traces(ctx, which, trs, "_again")
         bad2 = validate(ctx, p2, rows2)
         for tr, i in sorted(first_bad(rows2, bad2).items()):
@@ -311,7 +311,7 @@ def run(ctx):
     need = {"set", "flag", "info", "status", "query", "worker", "restart", "tick"}
     paused_reads = sum(1 for r in t_dns + t_home if r["k"] in ("info", "status") and not r["ren"] and r["ru"] > 0)
     unblocked = sum(1 for r in t_dns if r["k"] == "query" and r["res"] == "up" and r["kind"] not in ("rw", "clean"))
-    ran = sum(1 for r in t_dns + t_home if r["ran"])
+    ran = sum(1 for r in t_dns + t_home if r["ran"] and r["pre"]["u"] > 0 and r["post"] == {"en": True, "u": 0, "w": False})
     if need - kinds or paused_reads < 20 or unblocked < 20 or ran < 5:
         raise vlib.Inconclusive("vacuous traces: kinds %s, %d reads inside a pause, %d unblocked queries, %d real worker runs" % (
             sorted(kinds), paused_reads, unblocked, ran))
